@@ -424,6 +424,10 @@ pub struct Obs {
     pub step_times: Vec<Ms>,
     /// (time, id) of every keep-alive the client sent (echoes and unsolicited ones)
     pub echo_log: Vec<(Ms, u64)>,
+    /// (arrival time of the last byte at the server's socket, id) of every echo
+    pub echo_arrivals: Vec<(Ms, u64)>,
+    /// every emission of the client: (offset in its byte stream, length, time emitted, arrival of the last byte)
+    pub sb_frames: Vec<(usize, usize, Ms, Ms)>,
 }
 
 impl Obs {
@@ -530,6 +534,8 @@ struct Shared {
     steps_done: usize,
     step_times: Vec<Ms>,
     echo_log: Vec<(Ms, u64)>,
+    echo_arrivals: Vec<(Ms, u64)>,
+    sb_frames: Vec<(usize, usize, Ms, Ms)>,
     // adapters
     calls: Vec<Call>,
 }
@@ -585,6 +591,7 @@ impl Shared {
             self.cursor_at = at;
             self.segs.push_back(Seg { data: data[a..b].to_vec(), pos: 0, at, yield_first: y });
         }
+        self.sb_frames.push((self.emitted, data.len(), g, self.cursor_at));
         self.emitted += data.len();
     }
 
@@ -684,6 +691,7 @@ impl Shared {
                 Sched::Echo(id) => {
                     self.emit_bytes(&codec::sb_keep_alive(id), at);
                     self.echo_log.push((at, id));
+                    self.echo_arrivals.push((self.cursor_at, id));
                 }
                 Sched::Unsolicited => {
                     let uid = 0xdead_beef_0000 + self.unsolicited_sent as u64;
@@ -1224,6 +1232,8 @@ pub fn run(case: &Case) -> Obs {
         steps_done: 0,
         step_times: vec![],
         echo_log: vec![],
+        echo_arrivals: vec![],
+        sb_frames: vec![],
         calls: vec![],
     }));
     let plan = Arc::new(case.adapters.clone());
@@ -1296,6 +1306,8 @@ pub fn run(case: &Case) -> Obs {
         raw_wire: sh.wire.clone(),
         step_times: sh.step_times.clone(),
         echo_log: sh.echo_log.clone(),
+        echo_arrivals: sh.echo_arrivals.clone(),
+        sb_frames: sh.sb_frames.clone(),
     }
 }
 
